@@ -2,10 +2,24 @@ package PKG
 
 // Native-only helpers for replays: the replay build redirects time.Now / time.Sleep /
 // time.Since in the package's sources to these functions (the redirection is generated
-// from the current sources at replay time and never committed).
+// from the current sources at replay time and never committed). A harness that called
+// vrealclock() gets the real clock back.
 
 import "time"
 
-func vTimeNow() time.Time                  { return time.Unix(0, vNowNs) }
-func vTimeSleep(d time.Duration)           { vNowNs += int64(d) }
+func vTimeNow() time.Time {
+	if vRealClock {
+		return time.Now()
+	}
+	return time.Unix(0, vNowNs)
+}
+
+func vTimeSleep(d time.Duration) {
+	if vRealClock {
+		time.Sleep(d)
+		return
+	}
+	vNowNs += int64(d)
+}
+
 func vTimeSince(t time.Time) time.Duration { return vTimeNow().Sub(t) }
